@@ -11,8 +11,8 @@ use super::c09::{apply_dt_clear, apply_dt_setter, model_clear, model_set, DT_CLE
 use crate::core::*;
 use crate::model::calendar as cal;
 use crate::model::instant::*;
-use astrolabe::{DateTime, DateUtilities, Offset, OffsetUtilities, Time, TimeUtilities};
-use serde_json::{json, Value};
+use astrolabe::{DateTime, DateUtilities, Offset, OffsetUtilities, Time};
+use serde_json::json;
 use std::time::Duration;
 
 #[derive(Clone, Copy, PartialEq, Eq, Debug)]
@@ -25,33 +25,6 @@ pub enum Family {
     SetClear,
     /// set_offset / as_offset (C10)
     Offsets,
-}
-
-struct Obs {
-    instant: i128,
-    via_ts: i128,
-    off: Option<i32>,
-    getters: (i64, u32, u32, u32, u32, u32, u32, u32, u32, u32, u32),
-    ymdhms_utc: (i32, u32, u32, u32, u32, u32),
-}
-
-fn observe(dt: &DateTime) -> Obs {
-    Obs {
-        instant: read(dt),
-        via_ts: read_via_timestamp(&dt.set_offset(Offset::Fixed(0))),
-        off: offset_secs(dt),
-        getters: (dt.year() as i64, dt.month(), dt.day(), dt.day_of_year(), dt.weekday() as u32, dt.hour(), dt.minute(), dt.second(), dt.milli(), dt.micro(), dt.nano()),
-        ymdhms_utc: dt.as_ymdhms(),
-    }
-}
-
-fn model_obs(i: i128, off: i32) -> ((i64, u32, u32, u32, u32, u32, u32, u32, u32, u32, u32), (i32, u32, u32, u32, u32, u32)) {
-    let l = fields(i + off as i128 * NS);
-    let u = fields(i);
-    (
-        (l.year, l.month, l.dom, cal::day_of_year(l.day), cal::weekday_sun0(l.day), l.hour, l.minute, l.second, l.subsec / 1_000_000, l.subsec / 1_000, l.subsec),
-        (u.year as i32, u.month, u.dom, u.hour, u.minute, u.second),
-    )
 }
 
 fn inner(i: i128) -> bool {
@@ -193,9 +166,12 @@ pub fn walk(rec: &mut Rec, rng: &mut Rng, prop: &'static str, judged: Family) {
     }
     let mut off = gen_offset(rng);
     let mut history: Vec<String> = vec![format!("start {} offset {}", show(i), off)];
-    let mut dt = match trap(|| mk_off(i, off)) {
-        Ok(d) => d,
-        Err(_) => return,
+    let mut dt = match sane_value(i, off) {
+        Some((d, _)) => d,
+        None => {
+            rec.bin(super::diff::SKIP_START);
+            return;
+        }
     };
     let steps = 4 + rng.below(11);
     let mut judged_steps = 0;
@@ -204,7 +180,7 @@ pub fn walk(rec: &mut Rec, rng: &mut Rng, prop: &'static str, judged: Family) {
         history.push(desc.clone());
         let opname: String = desc.split('(').next().unwrap_or("").trim().to_string();
         let opname = if opname.starts_with('+') || opname.starts_with('-') { "operator".to_string() } else { opname };
-        let r = trap(|| f(&dt).map(|nd| (observe(&nd), nd)));
+        let r = trap(|| f(&dt));
         let is_judged = fam == judged && claim.is_some();
         match r {
             Err(p) => {
@@ -219,34 +195,49 @@ pub fn walk(rec: &mut Rec, rng: &mut Rng, prop: &'static str, judged: Family) {
                 }
                 return;
             }
-            Ok(Some((o, nd))) => {
+            Ok(Some(nd)) => {
                 rec.eval();
                 if is_judged {
-                    judged_steps += 1;
                     let (ei, eo) = claim.unwrap();
-                    let (mg, mu) = model_obs(ei, eo);
-                    let w = |what: &str, extra: Value| json!({"history": history, "step": desc, "problem": what, "model": {"instant": show(ei), "offset": eo}, "observed": extra});
-                    if o.instant != ei || o.off != Some(eo) {
-                        rec.violation(format!("{}|walk|{}|diverges-from-model", prop, opname), || w("instant/offset", json!({"instant": show(o.instant), "offset": o.off})));
-                        return;
+                    match diff_with_expected(&nd, ei, eo) {
+                        Ok(Diff::Skip) => {
+                            rec.bin(super::diff::SKIP_EXPECTED);
+                            return;
+                        }
+                        Ok(Diff::Same) => {}
+                        Ok(Diff::Differs(got, exp)) => {
+                            let kind = if got.ns_since != exp.ns_since || got.off != exp.off { "diverges-from-model" } else { "read-outs-disagree" };
+                            rec.violation(format!("{}|walk|{}|{}", prop, opname, kind), || {
+                                json!({"history": history, "step": desc, "model": {"instant": show(ei), "offset": eo}, "result_reads": got.to_json(), "independently_built_expected_reads": exp.to_json(),
+                                       "note": if kind == "read-outs-disagree" { "right instant by nanos_since, but another route reads something else than it does on the canonical value of that instant (non-canonical internal state)" } else { "" }})
+                            });
+                            return;
+                        }
+                        Err(p) => {
+                            rec.violation(format!("{}|walk|{}|result-unreadable|{},{}", prop, opname, p.class, p.site()), || json!({"history": history, "panic": p.to_json()}));
+                            return;
+                        }
                     }
-                    if o.via_ts != ei || o.getters != mg || o.ymdhms_utc != mu {
-                        rec.violation(format!("{}|walk|{}|read-outs-disagree", prop, opname), || {
-                            w("right instant by nanos_since, but timestamp()/getters/as_ymdhms read something else (non-canonical value?)", json!({"via_timestamp": show(o.via_ts), "getters": format!("{:?}", o.getters), "model_getters": format!("{:?}", mg), "as_ymdhms": format!("{:?}", o.ymdhms_utc)}))
-                        });
-                        return;
-                    }
+                    judged_steps += 1;
                     i = ei;
                     off = eo;
                 } else {
-                    // a mover: trust what the library reports, if it is usable at all
-                    match o.off {
-                        Some(x) if inner(o.instant) => {
-                            i = o.instant;
-                            off = x;
-                        }
-                        _ => return,
+                    // a mover (another property's operation): take the state the library reports, but only
+                    // go on if that state is canonical, i.e. reads like an independently built value of it
+                    let Ok((ni, no)) = trap(|| (read(&nd), offset_secs(&nd))) else { return };
+                    let Some(no) = no else { return };
+                    if !inner(ni) {
+                        return;
                     }
+                    match diff_with_expected(&nd, ni, no) {
+                        Ok(Diff::Same) => {}
+                        _ => {
+                            rec.bin("walk/stopped-at-untrustworthy-state(other-property)");
+                            return;
+                        }
+                    }
+                    i = ni;
+                    off = no;
                 }
                 dt = nd;
             }
